@@ -80,6 +80,14 @@ CLAIMS["C20"] = dict(
     note="matplotlib rendering and Excel formatting not modelled (only non-modification); formula outputs are oracle inputs; first pass of PlotData (link summation / dt, compartment-size weights, units) re-implemented in the harness.",
     design="8.C20")
 
+CLAIMS["C14"] = dict(
+    technique="Lean 4 theorems about the allocation-constraint model (Atomica.Alloc, SLSQP as an arbitrary oracle) + correspondence with constrain_sum_bounded / TotalSpendConstraint / SpendingPackageAdjustment (mode A)",
+    text="Proof: for EVERY solver answer a returned allocation lies within all bounds and sums to the total within the stated tolerance, an already-feasible allocation is returned unchanged, every other outcome is "
+         "an explicit signal (constrain_post/idempotent/signals); the feasibility pre-check is exact (precheck_exact, hard_feasible) and is evaluated before any objective evaluation; package shares and totals stay within limits. "
+         "The real functions are called with scipy.optimize.minimize wrapped so that the solver's answer is fed to the model; results, exception classes and write-backs into the instructions are compared.",
+    note="SLSQP convergence (whether a feasible proposal is wrongly rejected) is not modelled - only safety of what is returned.",
+    design="8.C14")
+
 NA_DEFAULT = "not yet claimed: model, theorems and correspondence under construction (see DESIGN.md section 8)"
 NA = {}
 
